@@ -513,7 +513,7 @@ pub fn run(ctx: &Ctx) -> i32 {
         let seeds: Vec<Vec<u8>> = corpus_files().iter().filter_map(|f| std::fs::read(f).ok()).filter(|b| b.len() < 6000).collect();
         let mut summary = Vec::new();
         for (target, from_tape) in [("pipeline_bytes", false), ("pipeline_tape", true)] {
-            let fo = run_fuzz_target(ctx, target, 8, if from_tape { 60_000 } else { 150_000 }, 4096, if from_tape { &[] } else { &seeds });
+            let fo = run_fuzz_target(ctx, target, 8, if from_tape { 30_000 } else { 60_000 }, 4096, if from_tape { &[] } else { &seeds });
             stats.eval(fo.execs);
             stats.class_n(&format!("libfuzzer:{target}:executions"), fo.execs);
             let mut confirmed = 0;
